@@ -37,7 +37,7 @@ struct verif_ghost_line
 struct verif_ghost
 {
   /* stdout / stderr model */
-  unsigned g_diag;                  /* diagnostics written to stderr */
+  unsigned long g_diag;             /* diagnostics written to stderr */
   unsigned g_wfail;                 /* stdout writes that failed */
   unsigned g_out_events;            /* stdout events */
   /* line monitor */
